@@ -405,6 +405,7 @@ func (e *Engine) execSelect(st *State, fr *Frame, x *ssa.Select, k func(*State))
 					s.Assume(e.chanClosed(s, chans[i], nil))
 				}
 				recvOk = ok
+				s.ghost["recvch!"+chans[i].S] = TTrue
 				tu = append(tu, v)
 			} else {
 				tu = append(tu, zeroValue(et))
